@@ -41,7 +41,7 @@ constexpr uint64_t kInf = ~0ULL;
 
 struct Cover {
     uint64_t histories = 0, ops = 0, notifies = 0, notifiesWithCallbacks = 0, callbacks = 0, subscribes = 0, unsubscribes = 0, shrinks = 0, existsCalls = 0, depthCalls = 0;
-    uint64_t fastCases = 0, fastOps = 0;
+    uint64_t fastCases = 0, fastOps = 0, fastThrows = 0;
     uint64_t linHistories = 0, linOps = 0, linNodes = 0, linInconclusive = 0, linWithOverlap = 0;
     uint64_t writesOverlappingNotify = 0, snapshotsJudged = 0, snapshotsWithConcurrentWrite = 0, missedJudged = 0, maxThreads = 0, nontrivialCases = 0;
     std::vector<uint64_t> fps;
@@ -598,6 +598,13 @@ void runFastCase(uint64_t c, rt::Rng rng) {
     const std::vector<int> P = {5, 0};                      // /f/a
     auto cb = [](int id) { return [id]() { if (Op *n = tlsNotify) n->cbs.push_back(CbRec{id, 0, 0}); }; };
     USubscription persistent = router->subscribe(build(P), cb(0));
+    // an observer that throws when asked to: the exception travels through notify() to the caller and must not
+    // leave the router's lock behind (later subscribe/unsubscribe/shrink calls would block for ever)
+    struct Boom {};
+    const std::vector<int> E = {4};                         // /e
+    static thread_local bool tlsThrow = false;
+    USubscription thrower = router->subscribe(build(E), []() { if (tlsThrow) throw Boom{}; });
+    std::atomic<uint64_t> thrown{0};
     std::vector<std::thread> th;
     for (int w = 0; w < writers; ++w)
         th.emplace_back([&, w, seed = rng.next()] {
@@ -628,6 +635,15 @@ void runFastCase(uint64_t c, rt::Rng rng) {
             while (!go.load(std::memory_order_acquire)) sched_yield();
             for (int k = 0; k < iters * 2 && !bad.load(std::memory_order_relaxed); ++k) {
                 unsigned q = (unsigned) r.below(5);
+                if (r.chance(8)) {
+                    bool caught = false;
+                    tlsThrow = true;
+                    try { router->notify(build(E)); } catch (const Boom &) { caught = true; }
+                    tlsThrow = false;
+                    if (!caught) report("an exception thrown by an observer did not reach the caller of notify()");
+                    thrown.fetch_add(1, std::memory_order_relaxed);
+                    continue;
+                }
                 if (q == 0) { if (!router->exists(build(P))) report("exists(/f/a) false although its subscription is never removed"); }
                 else if (q == 1) { if (!router->exists(build({5})) || !router->exists(build({-1, 0}))) report("exists(/f) or exists(/*/a) false although /f/a is stored"); }
                 else if (q == 2) { size_t dp = router->depth(); if (dp < 3 || dp > 4) report("depth() = " + std::to_string(dp) + " with /f/a stored and keys of at most 3 levels"); }
@@ -651,6 +667,7 @@ void runFastCase(uint64_t c, rt::Rng rng) {
     spy::disableDelays();
     C.fastCases++;
     C.fastOps += ops.load();
+    C.fastThrows += thrown.load();
     if (bad.load()) fail("wrong-result-under-concurrency", "fast-churn", firstBad + " (" + std::to_string(bad.load()) + " wrong results)");
     else {
         rt::Hash h;
@@ -659,7 +676,7 @@ void runFastCase(uint64_t c, rt::Rng rng) {
         ++C.nontrivialCases;
     }
     ++C.histories;
-    if (!gCaseFailed) { persistent->unsubscribe(); delete router; }
+    if (!gCaseFailed) { persistent->unsubscribe(); thrower->unsubscribe(); delete router; }
 }
 
 void onDeadlock(const std::string &desc) {
@@ -687,7 +704,7 @@ int main(int argc, char **argv) {
                    .kv("callbacks", C.callbacks).kv("subscribes", C.subscribes).kv("unsubscribes", C.unsubscribes).kv("shrinks", C.shrinks).kv("existsCalls", C.existsCalls)
                    .kv("depthCalls", C.depthCalls).kv("writesOverlappingNotify", C.writesOverlappingNotify).kv("snapshotsJudged", C.snapshotsJudged)
                    .kv("snapshotsWithConcurrentWrite", C.snapshotsWithConcurrentWrite).kv("missedObserversJudged", C.missedJudged).kv("maxThreads", C.maxThreads)
-                   .kv("fastChurnCases", C.fastCases).kv("fastChurnOperations", C.fastOps).kv("linHistories", C.linHistories).kv("linOperations", C.linOps).kv("linSearchNodes", C.linNodes).kv("linInconclusive", C.linInconclusive).kv("linHistoriesWithOverlap", C.linWithOverlap).kv("nontrivialCases", C.nontrivialCases).kv("delaysInjected", k.afterWake.load() + k.condEntry.load() + k.beforeLock.load() + k.afterUnlock.load() + k.beforeNotify.load())
+                   .kv("fastChurnCases", C.fastCases).kv("fastChurnOperations", C.fastOps).kv("deliveriesEndedByException", C.fastThrows).kv("linHistories", C.linHistories).kv("linOperations", C.linOps).kv("linSearchNodes", C.linNodes).kv("linInconclusive", C.linInconclusive).kv("linHistoriesWithOverlap", C.linWithOverlap).kv("nontrivialCases", C.nontrivialCases).kv("delaysInjected", k.afterWake.load() + k.condEntry.load() + k.beforeLock.load() + k.afterUnlock.load() + k.beforeNotify.load())
                    .kv("lockParks", k.watchedCondWaits.load()).raw("samples", rt::jsonArray(C.samples, false)));
     return 0;
 }
